@@ -245,6 +245,16 @@ impl<'tcx> Ex<'tcx> {
 
     fn note_adt(&mut self, def: ty::AdtDef<'tcx>, _args: GenericArgsRef<'tcx>) {
         self.note_rename(def.did());
+        if self.is_ws(def.did()) {
+            // the type printer uses the visible (re-exported) path even for local items, the def-path printer the defining path
+            let t = self.tcx.type_of(def.did()).instantiate_identity().skip_norm_wip();
+            let ts = ty_str(t);
+            let vis = ts.split('<').next().unwrap_or("").to_string();
+            let real = self.def_path(def.did());
+            if !vis.is_empty() && vis != real {
+                self.renames.insert(vis, real);
+            }
+        }
         let p = self.def_path(def.did());
         if self.adts.contains_key(&p) {
             return;
@@ -1273,7 +1283,7 @@ fn export<'tcx>(tcx: TyCtxt<'tcx>, out_dir: &str, crate_name: &str) {
             continue;
         }
         for imp in tcx.all_impls(tr) {
-            if !ex.is_ws(imp) {
+            if !imp.is_local() {
                 continue;
             }
             let mut o = J::obj();
